@@ -309,7 +309,8 @@ theorem clone_then_attach_wf (fuel : Nat) (s : X) (w : WF s.h) (O O' : Oracle) (
 /-- `merge` never moves, removes, renames or re-kinds an object that existed before (of the
     destination, of the source or anywhere else): kinds, names, ids and parents are unchanged
     and child lists only grow at the end, by new objects (the copies). Whether it succeeds or
-    raises half-way (KeyError of `append`, C13/section-name-clash-other-type). -/
+    raises half-way (a KeyError of `append`; the name clash with a Section of another type,
+    former finding C13/section-name-clash-other-type, is refused before anything changes). -/
 theorem merge_only_adds (fuel : Nat) (s : X) (O : Oracle) (dest src : Nat) (w : WF s.h) :
     Adds s.h.size s.h (stepX fuel s O (.merge dest src)).1.h := by
   unfold stepX
